@@ -21,6 +21,7 @@ RULE = ("Complete enumeration, per rule, of {absent, each listed value, one unli
         "Non-trivial: an assignment with at least one attribute present or one required attribute absent; distinct "
         "(rule, assignment) pairs are counted.")
 RULE += ("  Call forms: the node on its own and as an inner node of a minimal valid host tree (validate.tree from the host's root).")
+RULE += ('  Foreign attribute names also come with a namespace prefix; metamorphic: the node dressed in prefixes / namespace maps (binding those prefixes) / extras / tails gives the same verdict and codes.')
 ASSUMPTIONS = [
     "attribute values are strings (what every importer produces)",
     "content and children of the node are valid so that every reported error concerns attributes",
